@@ -140,3 +140,11 @@ impl Tx {
 pub fn ctx_push_rooted(vm: &RootedThread, value: &Value) { unimplemented!() }
 #[verifier::external_body]
 pub fn clone_error_msg(e: VmError) -> PanicMsg { unimplemented!() }
+// RootedThread derefs to Thread: the same operation with the forcing thread as receiver
+pub uninterp spec fn rooted_addr(t: RootedThread) -> usize;
+impl RootedThread {
+    #[verifier::external_body]
+    pub fn deep_clone_value(&self, owner: &RootedThread, value: &Value) -> (r: Result<RootedValue, VmError>)
+        ensures r is Ok ==> same_value(r->Ok_0.v, *value) && owned_by(r->Ok_0.v, rooted_addr(*self))
+    { unimplemented!() }
+}
